@@ -174,31 +174,62 @@ fn replay_one<Q: QueueApi>(h: &History, stats: &mut Stats, journal: Option<&mut 
     run_replay::<Q>(h, stats, journal).0
 }
 
-/// mode replay: re-execute the explicit history of a replay file.
+/// mode replay: re-execute recorded witnesses: `file=<path>` or every `*.json` of `dir=<path>`
+/// (optionally only names starting with `prefix=` / not starting with `notprefix=`).
 pub fn mode_replay(a: &Args) -> i32 {
-    let path = a.s("file", "");
-    let txt = std::fs::read_to_string(&path).expect("read replay file");
-    let v: serde_json::Value = serde_json::from_str(&txt).expect("replay json");
-    let rp = if v.get("replay").is_some() { v["replay"].clone() } else { v.clone() };
-    let mode = rp["mode"].as_str().unwrap_or("hist").to_string();
+    let mut files: Vec<String> = Vec::new();
+    let dir = a.s("dir", "");
+    if !dir.is_empty() {
+        let prefix = a.s("prefix", "");
+        let notprefix = a.s("notprefix", "");
+        let mut names: Vec<String> = std::fs::read_dir(&dir).expect("read corpus dir").filter_map(|e| e.ok()).map(|e| e.file_name().to_string_lossy().to_string()).collect();
+        names.sort();
+        for n in names {
+            if n.ends_with(".json") && n.starts_with(&prefix) && (notprefix.is_empty() || !n.starts_with(&notprefix)) {
+                files.push(format!("{}/{}", dir, n));
+            }
+        }
+    } else {
+        files.push(a.s("file", ""));
+    }
     let mut journal = Journal::open(a);
     let mut sink = Sink::default();
-    match mode.as_str() {
-        "hist" => {
-            let h: History = serde_json::from_value(rp["history"].clone()).expect("history");
-            let mut stats = Stats::default();
-            journal.line(&format!("EP {}", serde_json::json!({"mode":"replay","file":path})));
-            let mut jf = |s: &str| journal.line(s);
-            let j: Option<&mut dyn FnMut(&str)> = Some(&mut jf);
-            let reports = dispatch!(h.kind, hasher_key(&h.hasher), replay_one, &h, &mut stats, j);
-            for r in &reports {
-                sink.report(r);
+    let mut stats = Stats::default();
+    let mut evals = 0u64;
+    let mut samples = Vec::new();
+    for (fi, path) in files.iter().enumerate() {
+        let txt = std::fs::read_to_string(path).expect("read replay file");
+        let v: serde_json::Value = serde_json::from_str(&txt).expect("replay json");
+        let rp = if v.get("replay").is_some() { v["replay"].clone() } else { v.clone() };
+        let mode = rp["mode"].as_str().unwrap_or("hist").to_string();
+        journal.line(&format!("EP {}", serde_json::json!({"mode":"replay","file":path,"index":fi})));
+        evals += 1;
+        if samples.len() < 4 {
+            samples.push(serde_json::json!({"corpus_file": path}));
+        }
+        match mode.as_str() {
+            "hist" => {
+                if rp["history"].is_null() {
+                    eprintln!("replay: {} carries no explicit history", path);
+                    continue;
+                }
+                let h: History = serde_json::from_value(rp["history"].clone()).expect("history");
+                let mut jf = |s: &str| journal.line(s);
+                let j: Option<&mut dyn FnMut(&str)> = Some(&mut jf);
+                let reports = dispatch!(h.kind, hasher_key(&h.hasher), replay_one, &h, &mut stats, j);
+                for r in &reports {
+                    sink.report(r);
+                }
             }
-            sink.finish_counts("replay", stats.ops, stats.state_op.len() as u64, stats.to_json());
+            other => {
+                crate::replay_other(other, &rp, a, &mut sink, &mut journal);
+            }
         }
-        other => {
-            return crate::replay_other(other, &rp, a, &mut sink);
-        }
+        journal.line("EPDONE");
     }
+    let mut st = stats.to_json();
+    st["samples"] = serde_json::Value::Array(samples);
+    st["replayed_files"] = serde_json::json!(files.len());
+    sink.finish_counts("replay", evals + stats.ops, files.len() as u64, st);
     0
 }
